@@ -1,6 +1,7 @@
 package main
 
 import (
+	"bufio"
 	"bytes"
 	"context"
 	"errors"
@@ -60,6 +61,11 @@ func (e *engineD) str(max int) string {
 	default:
 		n = e.rng.Intn(24)
 	}
+	if e.rng.Intn(40) == 0 {
+		// now and then a long one, whatever the field: beyond the buffer of a
+		// connection's reader, beyond 64 KiB
+		n = 4000 + e.rng.Intn(66000)
+	}
 	b := make([]byte, n)
 	for i := range b {
 		b[i] = byte(e.rng.Intn(256))
@@ -109,7 +115,13 @@ func (e *engineD) roundTrip(kind string, enc []byte, dec func(r io.Reader) (inte
 	}
 	tail := []byte(e.str(12))
 	buf := append(append([]byte(nil), enc...), tail...)
-	r := bytes.NewReader(buf)
+	// half of the time through a buffered reader of the default size, which
+	// is what a connection is read through
+	var r io.Reader = bytes.NewReader(buf)
+	if e.rng.Intn(2) == 0 {
+		r = bufio.NewReader(r)
+		e.perKind["(through bufio.Reader)"]++
+	}
 	var got interface{}
 	var err error
 	func() {
@@ -172,7 +184,14 @@ func show(v interface{}) string {
 	if len(s) > 300 {
 		s = s[:300] + "..."
 	}
-	return s
+	// generated strings are arbitrary bytes: keep reports printable
+	b := []byte(s)
+	for i, c := range b {
+		if c < 0x20 || c > 0x7e {
+			b[i] = '.'
+		}
+	}
+	return string(b)
 }
 
 func deepEq(a, b interface{}) bool { return reflect.DeepEqual(a, b) }
